@@ -399,6 +399,24 @@ type v30Runner struct {
 	trace []string
 	// what the network was told: peer -> Connect (outbound) / Accept (inbound), removed by Drop
 	told map[peer.ID]Status
+	// known finding C30-K1: per direction (0 inbound, 1 outbound) the connected peers that lost their reserved
+	// status while no regular slot of their direction was free and that explain the current excess over the maximum
+	demoted [2]map[peer.ID]bool
+	nv      int // violations recorded by this scenario (known-finding hits do not stop a scenario)
+}
+
+const v30K1 = "C30-K1"
+
+func (rn *v30Runner) viol(class, msg string, w any) {
+	rn.nv++
+	rn.c.Violation(class, msg, w)
+}
+
+func (rn *v30Runner) known(msg string, w any) {
+	if !rn.c.Run.IsOpen(v30K1) {
+		rn.nv++ // Known() turns it into a plain violation
+	}
+	rn.c.Known(v30K1, msg, w)
 }
 
 func (rn *v30Runner) witness(i int, op v30Op, before, after *v30Snap, msgs []Message) map[string]any {
@@ -454,7 +472,7 @@ func (rn *v30Runner) step(i int, op v30Op, before *v30Snap) *v30Snap {
 		c.Eval(1)
 		w := rn.witness(i, op, before, nil, nil)
 		w["blocked_goroutine"] = detail
-		c.Violation("deadlock", fmt.Sprintf("%s never returns: the executing goroutine is parked on a peerset lock that nobody can release", op), w)
+		rn.viol("deadlock", fmt.Sprintf("%s never returns: the executing goroutine is parked on a peerset lock that nobody can release", op), w)
 		return nil
 	case "stuck":
 		c.Inconclusive(fmt.Sprintf("%s did not finish within 30 s and is not parked on a lock", op))
@@ -463,7 +481,7 @@ func (rn *v30Runner) step(i int, op v30Op, before *v30Snap) *v30Snap {
 	if res.panicked != nil {
 		w := rn.witness(i, op, before, nil, nil)
 		w["stack"] = res.stack
-		c.Violation("panic", fmt.Sprintf("%s panicked: %v", op, res.panicked), w)
+		rn.viol("panic", fmt.Sprintf("%s panicked: %v", op, res.panicked), w)
 		return nil
 	}
 	if res.err != nil {
@@ -491,17 +509,89 @@ func (rn *v30Runner) step(i int, op v30Op, before *v30Snap) *v30Snap {
 	}
 	c.Eval(4)
 	if after.numIn != cntIn || after.numOut != cntOut {
-		c.Violation("counter-mismatch", fmt.Sprintf("after %s: numIn=%d numOut=%d but %d ingoing / %d outgoing slot-occupying peers are connected",
+		rn.viol("counter-mismatch", fmt.Sprintf("after %s: numIn=%d numOut=%d but %d ingoing / %d outgoing slot-occupying peers are connected",
 			op, after.numIn, after.numOut, cntIn, cntOut), rn.witness(i, op, before, after, msgs))
 	}
-	// (2) never above the configured maxima
-	if after.numIn > after.maxIn || cntIn > after.maxIn {
-		c.Violation("slots-exceeded", fmt.Sprintf("after %s: %d (counter %d) inbound slot-occupying connections > maxIn=%d", op, cntIn, after.numIn, after.maxIn),
-			rn.witness(i, op, before, after, msgs))
+	// (2) never above the configured maxima. The only tolerated excess is the one known finding C30-K1 explains:
+	// connected peers demoted from reserved while their direction had no free slot (removeNoSlotNode counts them
+	// unconditionally). The allowance is per direction, is created only by such a demotion, and shrinks with the excess.
+	num, cnt := [2]uint32{after.numIn, after.numOut}, [2]uint32{cntIn, cntOut}
+	maxv, bnum := [2]uint32{after.maxIn, after.maxOut}, [2]uint32{before.numIn, before.numOut}
+	dirState, dirName := [2]MembershipState{ingoing, outgoing}, [2]string{"inbound", "outbound"}
+	dropped, connectedNow := map[peer.ID]bool{}, map[peer.ID]bool{}
+	for _, m := range msgs {
+		switch m.Status {
+		case Drop:
+			dropped[m.PeerID] = true
+		case Connect, Accept:
+			connectedNow[m.PeerID] = true
+		}
 	}
-	if after.numOut > after.maxOut || cntOut > after.maxOut {
-		c.Violation("slots-exceeded", fmt.Sprintf("after %s: %d (counter %d) outbound slot-occupying connections > maxOut=%d", op, cntOut, after.numOut, after.maxOut),
-			rn.witness(i, op, before, after, msgs))
+	for d := 0; d < 2; d++ {
+		for p := range rn.demoted[d] { // disconnected, dropped or reserved again: no longer explains anything
+			if dropped[p] || after.exempt(p) || after.nodes[p].state != dirState[d] {
+				delete(rn.demoted[d], p)
+			}
+		}
+		var demotedNow []peer.ID // lost the reserved status in this operation and kept the connection
+		for _, p := range v30Peers {
+			if !before.noSlot[p] || after.noSlot[p] || dropped[p] || after.nodes[p].state != dirState[d] {
+				continue
+			}
+			// connected before the op; or (setReservedPeer only: reservations and slot allocation come first, removals
+			// last) connected by this very op while it still was reserved
+			if before.nodes[p].state == dirState[d] || (op.Kind == "setres" && !before.connected(p) && connectedNow[p]) {
+				demotedNow = append(demotedNow, p)
+			}
+		}
+		excess := 0
+		if num[d] > maxv[d] {
+			excess = int(num[d] - maxv[d])
+		}
+		if cnt[d] > maxv[d] && int(cnt[d]-maxv[d]) > excess {
+			excess = int(cnt[d] - maxv[d])
+		}
+		newMarked := 0
+		if len(demotedNow) > 0 {
+			if op.Kind == "remres" { // nothing but the demotion touches the counters: free slots are those before the op
+				free := 0
+				if bnum[d] < maxv[d] {
+					free = int(maxv[d] - bnum[d])
+				}
+				newMarked = len(demotedNow) - free
+			} else { // setres reserves (and allocates slots) first, then demotes: only the end state is observable
+				newMarked = excess - len(rn.demoted[d])
+			}
+			if newMarked < 0 {
+				newMarked = 0
+			}
+			if newMarked > len(demotedNow) {
+				newMarked = len(demotedNow)
+			}
+			for _, p := range demotedNow[:newMarked] {
+				rn.demoted[d][p] = true
+			}
+		}
+		c.Eval(1)
+		if excess > 0 {
+			msg := fmt.Sprintf("after %s: %d (counter %d) %s slot-occupying connections > max=%d", op, cnt[d], num[d], dirName[d], maxv[d])
+			switch {
+			case num[d] == cnt[d] && excess <= len(rn.demoted[d]) && newMarked > 0:
+				c.Count("k1_demotion_without_free_slot", 1)
+				rn.known(msg+" (connected reserved peer demoted while no regular slot was free)", rn.witness(i, op, before, after, msgs))
+			case num[d] == cnt[d] && excess <= len(rn.demoted[d]):
+				c.Count("k1_excess_lingering_states", 1)
+			default:
+				rn.viol("slots-exceeded", fmt.Sprintf("%s; only %d of the excess is explained by demoted reserved peers", msg, len(rn.demoted[d])),
+					rn.witness(i, op, before, after, msgs))
+			}
+		}
+		for _, p := range v30Peers { // the allowance never outlives the excess
+			if len(rn.demoted[d]) <= excess {
+				break
+			}
+			delete(rn.demoted[d], p)
+		}
 	}
 	if after.maxIn > 0 && cntIn == after.maxIn {
 		c.Count("state_in_slots_full", 1)
@@ -532,7 +622,7 @@ func (rn *v30Runner) step(i int, op v30Op, before *v30Snap) *v30Snap {
 		}
 		c.Eval(1)
 		if n.rep < BannedThresholdValue {
-			c.Violation("banned-connected", fmt.Sprintf("after %s: non-reserved %s is connected with reputation %d < ban threshold %d",
+			rn.viol("banned-connected", fmt.Sprintf("after %s: non-reserved %s is connected with reputation %d < ban threshold %d",
 				op, v30Name(p), n.rep, BannedThresholdValue), rn.witness(i, op, before, after, msgs))
 		}
 		if s.cfg.ReservedOnly {
@@ -556,7 +646,7 @@ func (rn *v30Runner) step(i int, op v30Op, before *v30Snap) *v30Snap {
 			hi = a
 		}
 		if hi < int64(BannedThresholdValue) {
-			c.Violation("banned-accepted", fmt.Sprintf("%s emitted %s for non-reserved %s whose reputation (%d before, %d after) is below the ban threshold %d",
+			rn.viol("banned-accepted", fmt.Sprintf("%s emitted %s for non-reserved %s whose reputation (%d before, %d after) is below the ban threshold %d",
 				op, v30StatusName(m.Status), v30Name(p), before.rep(p), after.rep(p), BannedThresholdValue), rn.witness(i, op, before, after, msgs))
 		}
 	}
@@ -565,15 +655,50 @@ func (rn *v30Runner) step(i int, op v30Op, before *v30Snap) *v30Snap {
 			c.Count("incoming_banned_rejected", 1)
 		}
 	}
-	// (2b) the same maxima on the connections the emitted messages established (Connect/Accept not yet followed by Drop)
-	for _, m := range msgs {
-		switch m.Status {
-		case Connect, Accept:
-			rn.told[m.PeerID] = m.Status
-		case Drop:
-			delete(rn.told, m.PeerID)
+	// (2b) no Accept / Connect for a non-reserved peer while the counter of its direction is >= max. lb is a LOWER bound of
+	// the counter at emission time: value before the op, minus promotions of connected peers (assumed first), minus every
+	// preceding Drop of a possibly slot-occupying peer, plus every preceding Connect/Accept of a certainly non-reserved peer.
+	lb := [2]int{int(before.numIn), int(before.numOut)}
+	for _, p := range v30Peers {
+		if !before.noSlot[p] && after.noSlot[p] {
+			switch before.nodes[p].state {
+			case ingoing:
+				lb[0]--
+			case outgoing:
+				lb[1]--
+			}
 		}
 	}
+	for _, m := range msgs {
+		p := m.PeerID
+		switch m.Status {
+		case Connect, Accept:
+			d := 1
+			if m.Status == Accept {
+				d = 0
+			}
+			if !before.exempt(p) && !after.exempt(p) {
+				c.Eval(1)
+				if lb[d] >= int(maxv[d]) {
+					rn.viol("connect-while-full", fmt.Sprintf("%s emitted %s for non-reserved %s although at least %d %s slots of %d were occupied at that moment",
+						op, v30StatusName(m.Status), v30Name(p), lb[d], dirName[d], maxv[d]), rn.witness(i, op, before, after, msgs))
+				}
+				lb[d]++
+			}
+			rn.told[p] = m.Status
+		case Drop:
+			if st, ok := rn.told[p]; ok && !(before.exempt(p) && after.exempt(p)) {
+				if st == Accept {
+					lb[0]--
+				} else {
+					lb[1]--
+				}
+			}
+			delete(rn.told, p)
+		}
+	}
+	// (2c) the maxima also hold on the connections the messages established (Connect/Accept not yet followed by Drop),
+	// peers covered by C30-K1 excluded
 	var toldIn, toldOut uint32
 	differs := false
 	for _, p := range v30Peers {
@@ -581,7 +706,7 @@ func (rn *v30Runner) step(i int, op v30Op, before *v30Snap) *v30Snap {
 		if isTold != after.connected(p) {
 			differs = true
 		}
-		if !isTold || after.exempt(p) {
+		if !isTold || after.exempt(p) || rn.demoted[0][p] || rn.demoted[1][p] {
 			continue
 		}
 		if st == Accept {
@@ -595,7 +720,7 @@ func (rn *v30Runner) step(i int, op v30Op, before *v30Snap) *v30Snap {
 	}
 	c.Eval(2)
 	if toldIn > after.maxIn || toldOut > after.maxOut {
-		c.Violation("slots-exceeded-messages", fmt.Sprintf("after %s: messages established %d inbound (Accept) / %d outbound (Connect) non-reserved connections not yet dropped; maxima %d / %d",
+		rn.viol("slots-exceeded-messages", fmt.Sprintf("after %s: messages established %d inbound (Accept) / %d outbound (Connect) non-reserved connections not yet dropped; maxima %d / %d",
 			op, toldIn, toldOut, after.maxIn, after.maxOut), rn.witness(i, op, before, after, msgs))
 	}
 
@@ -637,7 +762,7 @@ func (rn *v30Runner) step(i int, op v30Op, before *v30Snap) *v30Snap {
 				if got == before.rep(p) {
 					class = "report-not-applied"
 				}
-				c.Violation(class, fmt.Sprintf("report %d for %v: %s (position %d) has reputation %d, expected sat(%d%+d)=%d",
+				rn.viol(class, fmt.Sprintf("report %d for %v: %s (position %d) has reputation %d, expected sat(%d%+d)=%d",
 					op.Val, op.Peers, v30Name(p), idx, got, before.rep(p), op.Val, want), rn.witness(i, op, before, after, msgs))
 			}
 		}
@@ -689,14 +814,14 @@ func (rn *v30Runner) step(i int, op v30Op, before *v30Snap) *v30Snap {
 }
 
 // runScenario executes ops (fixed list, or generated on the fly from the observed state).
-func v30RunScenario(c *vcommon.Case, r *vcommon.Rand, cfg v30Cfg, fixed []v30Op, nGen int) {
+func v30RunScenario(c *vcommon.Case, r *vcommon.Rand, cfg v30Cfg, fixed []v30Op, nGen int) (violations int) {
 	sim, err := v30New(cfg)
 	if err != nil {
 		c.Inconclusive("cannot build peer set: " + err.Error())
-		return
+		return 0
 	}
 	defer sim.close()
-	rn := &v30Runner{c: c, sim: sim, cfg: cfg, told: map[peer.ID]Status{}}
+	rn := &v30Runner{c: c, sim: sim, cfg: cfg, told: map[peer.ID]Status{}, demoted: [2]map[peer.ID]bool{{}, {}}}
 	c.Count("scenarios", 1)
 	if cfg.ReservedOnly {
 		c.Count("scenarios_reserved_only", 1)
@@ -721,13 +846,14 @@ func v30RunScenario(c *vcommon.Case, r *vcommon.Rand, cfg v30Cfg, fixed []v30Op,
 		}
 		sn = rn.step(i, op, sn)
 		if sn == nil {
-			return
+			return rn.nv
 		}
-		if c.Failed() && fixed == nil {
+		if rn.nv > 0 && fixed == nil {
 			break // one witness per generated case is enough; state may be corrupted afterwards
 		}
 	}
 	c.Sample(map[string]any{"cfg": cfg, "ops": len(rn.trace), "first_ops": rn.trace[:v30Min(len(rn.trace), 12)], "final": sn.dump()})
+	return rn.nv
 }
 
 func v30Min(a, b int) int {
@@ -1032,10 +1158,10 @@ func TestVerifC30(t *testing.T) {
 			if c.Run.OnlyCase != "" {
 				attempts = 25
 			}
-			for a := 0; a < attempts && !c.Failed(); a++ {
+			for a, nv := 0, 0; a < attempts && nv == 0; a++ {
 				rr := vcommon.NewRand(base)
 				cfg := v30Cfg{MaxIn: uint32(rr.Intn(4)), MaxOut: uint32(rr.Intn(4)), ReservedOnly: rr.Chance(1, 4), Handler: handler}
-				v30RunScenario(c, rr, cfg, nil, rr.Range(20, 300))
+				nv = v30RunScenario(c, rr, cfg, nil, rr.Range(20, 300))
 			}
 		}
 	}
